@@ -3,11 +3,12 @@
 (*   site "GetHardenedEnv": in = os.Environ() of the process, out = result    *)
 (*   site "go-list":        in = environment sfw was started with,            *)
 (*                          out = environment its `go list` child received    *)
-EXTENDS HardenedEnvContract, TLC
+EXTENDS HardenedEnvContract, TLC, Json, IOUtils
 VARIABLES l, ok
 AsSet(q) == {q[i] : i \in DOMAIN q}
 EvOK(e) == IF e.ev = "env" THEN Contract(e.in, e.out, AsSet(e.extra)) ELSE TRUE
-T == INSTANCE TraceStateless WITH EventOK <- EvOK
+TraceData == ndJsonDeserialize(IOEnv.TRACE)
+T == INSTANCE TraceStateless WITH EventOK <- EvOK, Trace <- TraceData
 Spec == T!TSSpec
 Accepted == T!TSAccepted
 =============================================================================
